@@ -202,7 +202,59 @@ func runSAM(data []byte) (pr parseRun) {
 		pr.fail = "panic: " + p
 	}
 	pr.endedEOF = rd.eofGiven
+	if pr.fail == "" {
+		pr.fail = samReaderAgrees(data, pr)
+	}
 	return
+}
+
+// samReaderAgrees drives sam.Reader (records only) on the same input: no panic, termination,
+// as many records and errors as ReaderHeader reported; and, when there is an error item, once
+// more with a consumer that stops at the first error item (a decoder must not panic then either).
+func samReaderAgrees(data []byte, hdr parseRun) string {
+	recs, errs := 0, 0
+	if p := catch(func() {
+		for s, err := range sam.Reader(&byteReader{data: data}) {
+			if err != nil {
+				errs++
+			} else if s == nil {
+				panic("Reader yielded neither a record nor an error")
+			} else {
+				recs++
+			}
+			if recs+errs > len(data)+8 {
+				panic("Reader iteration does not end")
+			}
+		}
+	}); p != "" {
+		return "sam.Reader: panic: " + p
+	}
+	if errs != hdr.errors {
+		return fmt.Sprintf("sam.Reader yields %d error items, ReaderHeader %d", errs, hdr.errors)
+	}
+	if errs == 0 {
+		return ""
+	}
+	for _, form := range []int{0, 1} {
+		if p := catch(func() {
+			if form == 0 {
+				for _, err := range sam.Reader(&byteReader{data: data}) {
+					if err != nil {
+						break
+					}
+				}
+			} else {
+				for _, err := range sam.ReaderHeader(&byteReader{data: data}) {
+					if err != nil {
+						break
+					}
+				}
+			}
+		}); p != "" {
+			return fmt.Sprintf("a consumer that stops at the first error item makes the decoder panic (%s): %s", []string{"Reader", "ReaderHeader"}[form], p)
+		}
+	}
+	return ""
 }
 
 func runBED(data []byte) (pr parseRun) {
